@@ -342,6 +342,62 @@ def defaults_findings(d):
   return uniq, probes
 
 
+ORDER_TYPES = ["Any", "Attachments", "Bool", "Choice", "ChoiceList", "Date", "DateTime:UTC", "Int", "Numeric",
+               "Ref:T", "RefList:T", "Text"]
+
+
+def _uncanon(c):
+  if c is None or c[0] == "n":
+    return None
+  if c[0] == "f":
+    return float(c[1])
+  return c[1]
+
+
+def order_findings(ck, d):
+  """The defaults the ENGINE uses (type objects, live columns, cells of a record added with no values) must be
+  gristTypes.ts's defaults whatever the order in which the types are first instantiated in a process (class-level
+  state of usertypes starts empty in every child)."""
+  import subprocess
+  rng = ck.rng
+  orders = [sorted(ORDER_TYPES), sorted(ORDER_TYPES, reverse=True)]
+  for first in ("Numeric", "Text", "Int", "RefList:T"):
+    rest = [t for t in ORDER_TYPES if t != first]
+    rng.shuffle(rest)
+    orders.append([first] + rest)
+  for _ in range(2 if ck.tier == "quick" else 30):
+    o = list(ORDER_TYPES); rng.shuffle(o); orders.append(o)
+  out = []
+  procs = []
+  for o in orders:
+    p = subprocess.Popen(["/venv/bin/python", "-m", "gx.c38_child"], stdin=subprocess.PIPE, stdout=subprocess.PIPE,
+                         stderr=subprocess.PIPE, text=True)
+    p.stdin.write(json.dumps({"order": o})); p.stdin.close()
+    procs.append((o, p))
+  for o, p in procs:
+    txt = p.stdout.read(); err = p.stderr.read(); p.wait()
+    if p.returncode != 0:
+      raise Infra("c38_child failed: %s" % err[-400:])
+    rep = json.loads(txt)
+    ck.evaluated(len(o))
+    ck.count("instantiation_orders")
+    if "error" in rep:
+      out.append(("engine rejects a table with one column per type", repr(rep["error"]), {"clause": "order", "order": o}))
+      continue
+    for ty in o:
+      tv = twin_ts_default(d["ts_defaults"], ty)
+      for where in ("type_obj", "type_obj_again", "column", "cell"):
+        c = rep[where].get(ty)
+        if c is None or c[0] == "x":
+          continue
+        pv = T.canon_py_value(_uncanon(c))
+        if pv != tv:
+          out.append(("engine default of type %s differs from gristTypes.ts (%s)" % (twin_pure(ty), where),
+                      "types instantiated in the order %r: %s default of %s is %s, gristTypes.ts getDefaultForType -> %s" % (
+                        o, where, ty, show(pv), show(tv)), {"clause": "order", "order": o, "type": ty, "where": where}))
+  return out
+
+
 def all_findings(ck, d, gen_text, genmod):
   fs = []
   if d["ts"] is not None:
@@ -352,7 +408,7 @@ def all_findings(ck, d, gen_text, genmod):
       tf = (tf[0] + " (and is not in the generated shape)", tf[1] + "; parser: " + str(d["ts_error"]), tf[2])
     fs.append(tf)
   df, probes = defaults_findings(d)
-  return fs + df, probes
+  return fs + df + order_findings(ck, d), probes
 
 
 # ============================================================================ node cross-check (optional)
